@@ -326,8 +326,9 @@ class Prop(Check):
                 "GenFile.C31_skip_iff", "GenFile.C31_pinned_false", "GenFile.C31_pinned_overwrite_false"]
     DRIVER = "Drivers/GenFile.lean"
     QUICK_CASES = 12       # inputs (about 300 cases: one Lean driver process); every write of every input gets its own case (see gen)
-    THOROUGH_CASES = 300
+    THOROUGH_CASES = 200
     PROCS_QUICK = 4
+    PROCS_THOROUGH = 4
     RULE = ("inputs = random textX grammars (dot and PlantUML metamodel export) and random models (model dot export); "
             "for every input one case per write call k (failure at write k, half of the cases after a partial write) "
             "plus the open / flush-close / replace / no-failure points; each case is a history of 1..4 runs on the same "
